@@ -46,6 +46,7 @@ esac
 ID="$1"; TIER="${2:-${VERIF_TIER:-quick}}"
 export VERIF_TIER="$TIER"
 if ! build_main release; then
+  if [ "$ID" = C18 ]; then exec python3 "$VERIF_DIR/c18_probe_fallback.py"; fi
   echo "INCONCLUSIVE property=$ID reason=the tree does not build"
   exit 2
 fi
